@@ -47,6 +47,11 @@ CLAIMED = {
         text="TLC checks the wait/stop post-conditions on the counter protocol (increment before the task is visible, decrement after termination; both swapped variants must fail) and on the API-level spec; real histories with 8 restarts per process, work submitted by the entry function, external threads, during suspension and while stop() is already waiting must be behaviours of LifeAbs: wait_ret only after the snapshot and its descendants exited, nothing runs while suspended, stop_ret only after finalize with all work done and with the entry function's result",
         note="sequential consistency; sampled schedules; life-cycle calls issued by one driver thread as documented",
         design="5/C05"),
+    "C13": dict(
+        technique="TLA+ abstract spec ThreadAbs (handles, body, interruption, stop, exit callbacks; Call/Lin/Ret) + fine-grained JoinImpl (exit-callback list vs. join registration) and WakeImpl model-checked by TLC; TLC trace validation of thread/jthread histories from the real runtime",
+        text="TLC checks on JoinImpl that join returns (fair) and only after the body, with every callback run once, for every interleaving of join with the exit-callback loop, and shows the pre-fix loop violates it; recorded histories of real pika::thread/jthread handles (join before/during/after termination, double join, detach, jthread destruction, interrupt with enabled/disabled scopes, stop tokens, user exit callbacks; 4 policies x 1-4 workers; delays at join.*/exitcb.*/state-word hooks) must be behaviours of ThreadAbs, including the 'body finished' flag the joiner reads right after join",
+        note="sequential consistency; sampled schedules; one open finding (join may return before earlier-registered exit callbacks ran) is listed in known_findings.json",
+        design="5/C13"),
 }
 
 NOT_YET = {}
